@@ -579,7 +579,7 @@ func report(w *World, obs []*Obligation, reports []*funcReport, toolErrors, trus
 		}
 		if k, ok := known[ob.Name]; ok {
 			if !knownHit[ob.Name] {
-				fmt.Printf("KNOWN-FINDING: property=%s %s\n", rc.prop, k)
+				fmt.Printf("KNOWN-FINDING: property=%s %s\n", rc.prop, strings.TrimSpace(strings.TrimPrefix(k, "property="+rc.prop)))
 				knownHit[ob.Name] = true
 			}
 			continue
